@@ -227,6 +227,18 @@ func finish(id string, spec *PropSpec, tier string, seed int, runs []*Run, eng *
 			}
 			samples = append(samples, map[string]interface{}{"harness": r.harness, "kind": "path-witness", "inputs": decodeModel(w.Model), "choices": w.Choices})
 		}
+		if !noReplay && len(r.violations) == 0 && len(r.engineErrors) == 0 {
+			maxW := 12
+			if tier == "thorough" {
+				maxW = 60
+			}
+			n, probs := validateWitnesses(spec, r, maxW, seed)
+			replayed += n
+			problems = append(problems, probs...)
+			if n == 0 && len(probs) == 0 {
+				problems = append(problems, r.harness+": no path witness could be validated natively")
+			}
+		}
 		hv := map[string]interface{}{"harness": r.harness, "paths": r.paths, "path_ends": r.pathEnds, "ssa_instructions": r.steps,
 			"feasibility_queries": r.feasQ, "obligation_queries": r.oblQ, "solver_time_s": round2(r.solverTime.Seconds()), "wall_s": round2(r.wall.Seconds()),
 			"covers": sortedKeys(r.covers), "bounds": r.spec.Bounds, "params": r.params, "obligations": r.obl}
